@@ -12,6 +12,7 @@
 ###############################################################################
 import sys
 
+import numpy as np
 from numba import njit  # type: ignore
 from numpy.typing import NDArray
 
@@ -35,7 +36,7 @@ def smallest_domain_var_heuristic(
     cp_top_idx = stacks_top[0]
     for dom_idx in decision_domains:
         shr_domain = shr_domains_stack[cp_top_idx, dom_idx]
-        size = shr_domain[MAX] - shr_domain[MIN]  # actually this is size - 1
+        size = np.int64(shr_domain[MAX]) - shr_domain[MIN]  # actually this is size - 1, may not fit 32 bits
         if 0 < size < min_size:
             min_idx = dom_idx
             min_size = size
